@@ -13,13 +13,13 @@ From Coq Require Import Permutation.
 
 Section Final.
   Variable L R : Type.
-  Variable l_pre : L -> N -> L.
+  Variable l_pre : L -> bmeta -> L.
   Variable l_check : L -> tx -> bool.
   Variable l_exec : L -> tx -> xres L.
-  Variable l_post : L -> N -> L * R.
+  Variable l_post : L -> N -> bmeta -> L * R.
   Variable commit_of : L -> list tx -> list N.
-  Variable uh_at : N -> N.
-  Variable height_of : N -> N.
+  Variable uh_at : bmeta -> N.
+  Variable height_of : bmeta -> N.
 
   Notation State := (state L).
   Notation App := (app L R).
@@ -72,7 +72,7 @@ Section Final.
     N.eqb (d_uh (b_data D)) (uh_at (b_meta D)) = true ->
     forallb (Check_tx (Pre_exec {| s_l := s_l c; s_o := o1 |} (b_meta D))) (d_txs (b_data D)) = true ->
     Finalize_loop (Pre_exec {| s_l := s_l c; s_o := o1 |} (b_meta D)) (d_txs (b_data D)) = (sf1, ex) ->
-    l_post (s_l sf1) (b_meta D) = (l', r) ->
+    l_post (s_l sf1) (b_hash D) (b_meta D) = (l', r) ->
     list_eqb N.eqb (d_commit (b_data D)) (commit_of (s_l sf1) (map fst ex)) = true ->
     dec_out (Finalize (Init c) D) =
     (OFinalized L R (map (fun e => (tx_id (fst e), snd e)) ex) r {| s_l := l'; s_o := s_o sf1 |},
@@ -148,7 +148,7 @@ Section Final.
     pose proof (known_f7_disj _ Hk) as Hd.
     destruct a as [ac [ws wex wres] ae ast].
     cbn [a_committed a_staged a_exec a_working w_s w_result] in *. subst ac ast ae ws wres.
-    destruct (l_post (s_l sf) (b_meta D)) as [l' r] eqn:ELP. cbn [fst snd].
+    destruct (l_post (s_l sf) (b_hash D) (b_meta D)) as [l' r] eqn:ELP. cbn [fst snd].
     destruct (apply_prices (s_o c) (d_prices (b_data D)) (height_of (b_meta D))) as [o1|] eqn:EA.
     - assert (HPR : PR L (d_prices (b_data D)) (height_of (b_meta D)) (Pre_exec c (b_meta D))
                        (Pre_exec {| s_l := s_l c; s_o := o1 |} (b_meta D)))
@@ -270,3 +270,6 @@ Proof.
   unfold stmt_price_order_irrelevant. intros o ps ps' h HP Hnd.
   apply apply_prices_perm; assumption.
 Qed.
+
+Lemma cached_compare_exact : stmt_cached_compare_exact.
+Proof. unfold stmt_cached_compare_exact. exact proposal_eqb_iff. Qed.
